@@ -70,42 +70,55 @@ def cutvars(ks):
     return d
 
 
-def ob_merge(dt1, dt2, n, m, second=None):
-    """Stage 1 (integers): at the cut after the merge loop, N = |a|, M = |b|, u = N + M - #common; every read in
-    bounds; loop terminates within n+m iterations; no exception escapes."""
-    ks, out, (A, ac, la, pa), (B, bc, lb, pb) = run_dist(dt1, dt2, n, m)
+def spec_value_wrong(out, LA, LB, c, fname='jaccarddist'):
+    """Formula: the value returned by `fname` is NOT the value the property text gives for arrays with |a| = LA, |b| = LB and c common
+    elements (distance = exact quotient rounded once to float32; index = 1 - distance in float32 or double arithmetic)."""
+    ret = out.ret
+    if not (isinstance(ret, CVal) and ret.ctype.kind == 'float'):
+        return True
+    r64 = ret.z3() if ret.ctype.bits == 64 else z3.fpFPToFP(RNE, ret.z3(), z3.Float64())
+    d = J.dist_fp(LA, LB, LA + LB - c)
+    d64 = z3.fpFPToFP(RNE, d, z3.Float64())
+    if fname == 'jaccarddist':
+        return lor(out.raised, z3.Not(z3.fpEQ(r64, d64)))
+    s32 = z3.fpFPToFP(RNE, z3.fpSub(RNE, z3.FPVal(1.0, J.F32), d), z3.Float64())
+    s64 = z3.fpSub(RNE, z3.FPVal(1.0, z3.Float64()), d64)
+    return lor(out.raised, z3.Not(z3.Or(z3.fpEQ(r64, s32), z3.fpEQ(r64, s64))))
+
+
+def cut_instances(ks):
+    """[(N, M, u, guard)] for every place/alternative at which the kernel's merge loop was left (definitions at the cut)."""
     cv = cutvars(ks)
+    if not cv:
+        return []
     if set(cv) != {'N', 'M', 'u'} or len({len(v) for v in cv.values()}) != 1:
         raise CannotEncode(f'cut variables {list(cv)}')
+    return [(Nd.z3(), Md.z3(), ud.z3(), gi) for (Nf, Nd, gi), (Mf, Md, _), (uf, ud, _) in zip(cv['N'], cv['M'], cv['u'])]
+
+
+def ob_merge(dt1, dt2, n, m, second=None, fname='jaccarddist'):
+    """Stage 1 (integers): at the cut after the merge loop, N = |a|, M = |b|, u = N + M - #common; every read in
+    bounds; loop terminates within n+m iterations; no exception escapes."""
+    ks, out, (A, ac, la, pa), (B, bc, lb, pb) = run_dist(dt1, dt2, n, m, fname)
     c = J.match_count(ac, la, bc, lb)
     LA, LB = z3.SignExt(32, la), z3.SignExt(32, lb)
     # the kernel may be entered from several call sites / alternatives (e.g. after a conditional cast): every instance,
     # under its own guard, must see (N, M, u) = (|a|, |b|, |a or b|) of the caller's arrays
-    inst_wrong, guards_ = [], []
-    for (Nf, Nd, gi), (Mf, Md, _), (uf, ud, _) in zip(cv['N'], cv['M'], cv['u']):
-        inst_wrong.append(land(gi, lor(Nd.z3() != LA, Md.z3() != LB, ud.z3() != LA + LB - c)))
-        guards_.append(gi)
-    g = lor(*guards_)
+    inst = cut_instances(ks)
+    inst_wrong = [land(gi, lor(N != LA, M != LB, u != LA + LB - c)) for N, M, u, gi in inst]
+    g = lor(*[gi for _, _, _, gi in inst])
     defs_wrong = lor(*inst_wrong)
     # paths on which the kernel is not reached at all (an early return in the Python layer): there the returned value
-    # itself must be the spec distance of the two arrays
+    # itself must be the value the property gives for the two arrays
     not_reached = lnot(g) if g is not True else False
-    if not_reached is False:
-        early_wrong = False
-    else:
-        ret = out.ret
-        if isinstance(ret, CVal) and ret.ctype.kind == 'float':
-            r64 = ret.z3() if ret.ctype.bits == 64 else z3.fpFPToFP(RNE, ret.z3(), z3.Float64())
-            spec64 = z3.fpFPToFP(RNE, J.dist_fp(LA, LB, LA + LB - c), z3.Float64())
-            early_wrong = lor(out.raised, z3.Not(z3.fpEQ(r64, spec64)))
-        else:
-            early_wrong = True
+    early_wrong = False if not_reached is False else spec_value_wrong(out, LA, LB, c, fname)
     viol = lor(defs_wrong, land(not_reached, early_wrong))
     pre = pa + pb
-    return decide(f'merge {dt1}x{dt2} n<={n} m<={m}', pre, viol, ks, arrays_extract(ac, la, bc, lb, dt1, dt2), TO, second=second, unwind_is_violation=True,
+    label = 'merge' if fname == 'jaccarddist' else f'merge[{fname}]'
+    return decide(f'{label} {dt1}x{dt2} n<={n} m<={m}', pre, viol, ks, arrays_extract(ac, la, bc, lb, dt1, dt2), TO, second=second, unwind_is_violation=True,
                   reach_goals=[('both-nonempty-with-common', z3.And(la == n, lb == m, c >= 1) if n and m else True),
                                ('last-elements-equal', z3.And(la == n, lb == m, J.zext64(ac[n - 1]) == J.zext64(bc[m - 1])) if n and m else True)],
-                  bounds={'n': n, 'm': m, 'dtypes': [dt1, dt2]})
+                  bounds={'n': n, 'm': m, 'dtypes': [dt1, dt2], 'function': fname})
 
 
 def ob_float(dt1, dt2, fname='jaccarddist', second=None, to=90):
@@ -195,12 +208,15 @@ def real_dist(a, dt1, b, dt2, fname='jaccarddist'):
     return out.ret.term, f'concrete evaluation of metric.py/metric.pyx by engine K (binary stale: {why})'
 
 
-def replay_arrays(cex, unwind=False):
+def replay_arrays(cex, unwind=False, fname='jaccarddist'):
     a, b = cex['a'], cex['b']
     if unwind:
         return replay_termination(cex)
-    got, how = real_dist(a, cex['a_dtype'], b, cex['b_dtype'])
+    got, how = real_dist(a, cex['a_dtype'], b, cex['b_dtype'], fname)
     want = J.py_dist(a, b)
+    if fname == 'jaccard':
+        bad = float(got) not in (float(np.float32(1) - want), 1.0 - float(want))
+        return bad, {'how': how, 'function': 'jaccard', 'got': repr(got), 'want': f'1 - {want!r}'}
     bad = np.float32(got).tobytes() != np.float32(want).tobytes()
     return bad, {'how': how, 'got': repr(got), 'want': repr(want)}
 
@@ -290,6 +306,9 @@ def main(tier):
         for d1, d2 in itertools.product(U, U):
             big = (d1, d2) in (('u8', 'u8'), ('u2', 'u8'), ('u8', 'u2'))
             specs.append(('props.C02', 'ob_merge', dict(dt1=d1, dt2=d2, n=5 if big else 4, m=5 if big else 4, second=second)))
+    # the index wrapper jaccard(): same integer-stage claim (and any shortcut it takes must return 1 - distance)
+    for d1, d2 in (('u2', 'u2'), ('u8', 'u4'), ('i4', 'u8')) + ((('u4', 'u2'), ('u8', 'u8'), ('i2', 'i8')) if tier == 'thorough' else ()):
+        specs.append(('props.C02', 'ob_merge', dict(dt1=d1, dt2=d2, n=3, m=3, second=second, fname='jaccard')))
     for fname in ('jaccarddist', 'jaccard'):
         specs.append(('props.C02', 'ob_float', dict(dt1='u8', dt2='u8', fname=fname, second=second)))
     specs.append(('props.C02', 'ob_float', dict(dt1='u2', dt2='i4', fname='jaccarddist', second=second)))
@@ -303,7 +322,7 @@ def main(tier):
             cex = r.get('cex') or {}
             name = r['name']
             if 'a' in cex:
-                rep, detail = replay_arrays(cex, unwind=str(r.get('cex_kind', '')).startswith('unwind'))
+                rep, detail = replay_arrays(cex, unwind=str(r.get('cex_kind', '')).startswith('unwind'), fname=r['spec'][2].get('fname', 'jaccarddist'))
             elif 'N' in cex:
                 rep, detail = replay_sizes(cex, r['spec'][2].get('fname', 'jaccarddist'))
             else:
